@@ -571,7 +571,7 @@ def getPitchMeasures(
         )
 
     if filterZeroFlag:
-        f0Values = [f0Val for f0Val in f0Values if int(f0Val) != 0]
+        f0Values = [f0Val for f0Val in f0Values if f0Val != 0]
 
     if len(f0Values) == 0:
         myStr = f"No pitch data for file: {name}, label: {label}"
